@@ -522,7 +522,7 @@ class _Sink:
         pass
 
 
-TX_OPS = {"luba": ["send", "send", "info", "settings", "resetq"], "sci": ["send", "send", "info", "resetq"]}
+TX_OPS = {"luba": ["send", "send", "info", "settings", "resetq", "waitraw"], "sci": ["send", "send", "info", "resetq", "waitraw"]}
 
 
 def _tx_commands():
@@ -540,7 +540,13 @@ def _transmit(p, proto, op, cmdno):
         p.reset_dali_response()
         return None
     cmds = _tx_commands()
-    if op == "send":
+    if op == "waitraw":
+        # somebody waits for a backward frame and gives up (its own timeout) before one arrives; what arrives later is
+        # still delivered to whoever asks next.  (Only when nothing is queued: the wait would rightly take it.)
+        if p._queue_rx_raw_dali.qsize():
+            return None
+        coro = p.wait_dali_raw_response()
+    elif op == "send":
         coro = p.send_dali_command(cmds[cmdno % len(cmds)])
     elif op == "info":
         coro = p.send_device_info_query()
@@ -786,6 +792,15 @@ def _complete(p, proto, op, cmdno, reply, clock):
         except Exception as e:  # noqa
             reply_exc = e
         return ("rx", reply_exc) if reply_exc is not None else "completed"
+    if op == "waitraw":
+        _transmit(p, proto, op, cmdno)      # a wait that is given up: nothing of the reply is meant for it
+        reply_exc = None
+        try:
+            with clock:
+                p.data_received(reply)
+        except Exception as e:  # noqa
+            reply_exc = e
+        return ("rx", reply_exc) if reply_exc is not None else "gave-up"
     cmds = _tx_commands()
     if op == "send":
         coro = p.send_dali_command(cmds[cmdno % len(cmds)])
@@ -888,7 +903,8 @@ def _prelude_str(prelude):
     return " ; ".join("earlier stream of %d bytes" % (len(st_[1]) // 2) if st_[0] == "rx" else
                       "%s answered with [%s]" % ({"send": "send_dali_command", "info": "send_device_info_query",
                                                   "settings": "send_device_settings",
-                                                  "resetq": "reset_dali_response"}[st_[1]], st_[3]) for st_ in prelude)
+                                                  "resetq": "reset_dali_response",
+                                                  "waitraw": "wait_dali_raw_response (given up)"}[st_[1]], st_[3]) for st_ in prelude)
 
 
 def _judge_hist(case):
